@@ -13,11 +13,12 @@ pub mod c13;
 pub mod c14;
 pub mod c15;
 pub mod c16;
+pub mod c17;
 pub mod c18;
 pub mod c20;
 
 pub fn registry() -> Vec<&'static PropInfo> {
-    vec![&c01::INFO, &c02::INFO, &c03::INFO, &c07::INFO, &c08::INFO, &c09::INFO, &c10::INFO, &c11::INFO, &c12::INFO, &c13::INFO, &c14::INFO, &c15::INFO, &c16::INFO, &c20::INFO]
+    vec![&c01::INFO, &c02::INFO, &c03::INFO, &c07::INFO, &c08::INFO, &c09::INFO, &c10::INFO, &c11::INFO, &c12::INFO, &c13::INFO, &c14::INFO, &c15::INFO, &c16::INFO, &c17::INFO, &c20::INFO]
 }
 
 pub fn find(id: &str) -> Option<&'static PropInfo> {
